@@ -1,8 +1,11 @@
 // C10: HostTable.LookupHostTagAndProduct (host trie with splat entries, VIP table, default product)
 // vs model HostTable.v.  The tables are written as JSON files and loaded with the real loaders
 // (host_rule_conf.HostRuleConfLoad, vip_rule_conf.VipRuleConfLoad), then HostTable.Update.
-// input : [entries vips dflt queries]  entries=[[host tag product]..] vips=[[vip product]..] queries=[[host vip]..]
-// output: [[product tag err]..]
+// input : [preQueries stages]  stage=[entries vips dflt queries]  entries=[[host tag product]..] vips=[[vip product]..]
+//         queries=[[host vip]..].  preQueries run on a fresh HostTable before any Update; the stages are applied to the
+//         SAME HostTable in order (Update, then queries): act -> reload -> act.
+// output: [preResults [stageResults..]], per query [product tag err lpProduct lpErr vpProduct vpErr]
+//         (LookupHostTagAndProduct, LookupProduct(host), LookupProductByVip(vip))
 package main
 
 import (
@@ -44,62 +47,82 @@ func writeJSON(name string, v interface{}) string {
 	return p
 }
 
-func impl(in hv.Val) hv.Val {
-	top := hv.AsList(in)
-	entries, vips, dflt, queries := hv.AsList(top[0]), hv.AsList(top[1]), hv.AsStr(top[2]), hv.AsList(top[3])
-	hosts := map[string][]string{}    // tag -> hosts
-	hostTags := map[string][]string{} // product -> tags
-	seenTag := map[string]bool{}
-	for _, e := range entries {
-		l := hv.AsList(e)
-		h, t, p := hv.AsStr(l[0]), hv.AsStr(l[1]), hv.AsStr(l[2])
-		hosts[t] = append(hosts[t], h)
-		if !seenTag[t] {
-			seenTag[t] = true
-			hostTags[p] = append(hostTags[p], t)
-		}
+func errCode(err error) int {
+	switch err {
+	case nil:
+		return 0
+	case bfe_route.ErrNoProduct:
+		return 1
 	}
-	hostFile := map[string]interface{}{"Version": "v1", "Hosts": hosts, "HostTags": hostTags}
-	if dflt != "" {
-		if _, ok := hostTags[dflt]; !ok {
-			hostTags[dflt] = []string{}
-		}
-		hostFile["DefaultProduct"] = dflt
-	}
-	vipMap := map[string][]string{}
-	for _, e := range vips {
-		l := hv.AsList(e)
-		vipMap[hv.AsStr(l[1])] = append(vipMap[hv.AsStr(l[1])], hv.AsStr(l[0]))
-	}
-	hostConf, err := host_rule_conf.HostRuleConfLoad(writeJSON("host_rule.data", hostFile))
-	if err != nil {
-		return hv.Err(10)
-	}
-	vipConf, err := vip_rule_conf.VipRuleConfLoad(writeJSON("vip_rule.data", map[string]interface{}{"Version": "v1", "Vips": vipMap}))
-	if err != nil {
-		return hv.Err(11)
-	}
-	ht := new(bfe_route.HostTable)
-	ht.Update(hostConf, vipConf, &route_rule_conf.RouteTableConf{})
+	return 9
+}
+
+func runQueries(ht *bfe_route.HostTable, queries hv.L) hv.Val {
 	out := hv.L{}
 	for _, q := range queries {
 		l := hv.AsList(q)
-		req := &bfe_basic.Request{Session: &bfe_basic.Session{}, HttpRequest: &bfe_http.Request{Host: hv.AsStr(l[0])}}
-		if v := hv.AsStr(l[1]); v != "" {
-			req.Session.Vip = net.ParseIP(v)
+		host, vip := hv.AsStr(l[0]), hv.AsStr(l[1])
+		req := &bfe_basic.Request{Session: &bfe_basic.Session{}, HttpRequest: &bfe_http.Request{Host: host}}
+		if vip != "" {
+			req.Session.Vip = net.ParseIP(vip)
 		}
 		err := ht.LookupHostTagAndProduct(req)
-		code := 0
-		switch {
-		case err == nil && req.Route.Error == nil:
-		case err == bfe_route.ErrNoProduct && req.Route.Error == err:
-			code = 1
-		default:
-			code = 9
+		code := errCode(err)
+		if req.Route.Error != err {
+			code = 8
 		}
-		out = append(out, hv.L{hv.S(req.Route.Product), hv.S(req.Route.HostTag), hv.I(code)})
+		lp, lerr := ht.LookupProduct(host)
+		vp, verr := ht.LookupProductByVip(vip)
+		out = append(out, hv.L{hv.S(req.Route.Product), hv.S(req.Route.HostTag), hv.I(code),
+			hv.S(lp), hv.I(errCode(lerr)), hv.S(vp), hv.I(errCode(verr))})
 	}
 	return out
+}
+
+func impl(in hv.Val) hv.Val {
+	top := hv.AsList(in)
+	ht := new(bfe_route.HostTable)
+	pre := runQueries(ht, hv.AsList(top[0]))
+	stageOut := hv.L{}
+	for _, sv := range hv.AsList(top[1]) {
+		st := hv.AsList(sv)
+		entries, vips, dflt, queries := hv.AsList(st[0]), hv.AsList(st[1]), hv.AsStr(st[2]), hv.AsList(st[3])
+		hosts := map[string][]string{}    // tag -> hosts
+		hostTags := map[string][]string{} // product -> tags
+		seenTag := map[string]bool{}
+		for _, e := range entries {
+			l := hv.AsList(e)
+			h, t, p := hv.AsStr(l[0]), hv.AsStr(l[1]), hv.AsStr(l[2])
+			hosts[t] = append(hosts[t], h)
+			if !seenTag[t] {
+				seenTag[t] = true
+				hostTags[p] = append(hostTags[p], t)
+			}
+		}
+		hostFile := map[string]interface{}{"Version": "v1", "Hosts": hosts, "HostTags": hostTags}
+		if dflt != "" {
+			if _, ok := hostTags[dflt]; !ok {
+				hostTags[dflt] = []string{}
+			}
+			hostFile["DefaultProduct"] = dflt
+		}
+		vipMap := map[string][]string{}
+		for _, e := range vips {
+			l := hv.AsList(e)
+			vipMap[hv.AsStr(l[1])] = append(vipMap[hv.AsStr(l[1])], hv.AsStr(l[0]))
+		}
+		hostConf, err := host_rule_conf.HostRuleConfLoad(writeJSON("host_rule.data", hostFile))
+		if err != nil {
+			return hv.Err(10)
+		}
+		vipConf, err := vip_rule_conf.VipRuleConfLoad(writeJSON("vip_rule.data", map[string]interface{}{"Version": "v1", "Vips": vipMap}))
+		if err != nil {
+			return hv.Err(11)
+		}
+		ht.Update(hostConf, vipConf, &route_rule_conf.RouteTableConf{})
+		stageOut = append(stageOut, runQueries(ht, queries))
+	}
+	return hv.L{pre, stageOut}
 }
 
 var words = []string{"a", "b", "com", "net", "www", "x1"}
@@ -138,7 +161,7 @@ func normKey(h string) string {
 	return h
 }
 
-func gen(r *hv.Rng, i int, tier string) (string, hv.Val) {
+func genStage(r *hv.Rng) (string, hv.Val, hv.L) {
 	nEnt := r.Range(0, 12)
 	if r.Chance(1, 6) {
 		nEnt = r.Range(12, 30)
@@ -184,6 +207,8 @@ func gen(r *hv.Rng, i int, tier string) (string, hv.Val) {
 		case k == 11:
 			h = "*.*." + h
 			class = "invalid-star"
+		case k == 12 && r.Chance(1, 3):
+			h = "." // the root name: same trie path as the empty host
 		}
 		if r.Chance(1, 4) {
 			h = flipCase(r, h)
@@ -259,6 +284,9 @@ func gen(r *hv.Rng, i int, tier string) (string, hv.Val) {
 		if r.Chance(1, 30) {
 			h = ""
 		}
+		if r.Chance(1, 40) {
+			h = "."
+		}
 		if r.Chance(1, 3) {
 			h = flipCase(r, h)
 		}
@@ -289,11 +317,51 @@ func gen(r *hv.Rng, i int, tier string) (string, hv.Val) {
 		es = append(es, hv.L{hv.S(e.host), hv.S(e.tag), hv.S(e.prod)})
 	}
 	if nEnt == 0 {
-		class = "triv-empty-table"
+		class = "empty-table"
 	}
-	return class, hv.L{es, vips, hv.S(dflt), qs}
+	return class, hv.L{es, vips, hv.S(dflt), qs}, qs
+}
+
+// 1-3 stages on one HostTable; the later stages reuse queries of the earlier ones (a stale trie, VIP table or
+// default product left over from the previous Update would answer them differently)
+func gen(r *hv.Rng, i int, tier string) (string, hv.Val) {
+	n := 1
+	if r.Chance(1, 2) {
+		n = r.Range(2, 3)
+	}
+	stages := hv.L{}
+	class := ""
+	var prevQ hv.L
+	for k := 0; k < n; k++ {
+		c, st, qs := genStage(r.Fork(1000 + k))
+		if k > 0 && r.Chance(1, 6) { // reload to (nearly) nothing: everything must be forgotten
+			st = hv.L{hv.L{}, hv.L{}, hv.S(""), qs}
+			c = "cleared"
+		}
+		if k > 0 {
+			l := hv.AsList(st)
+			st = hv.L{l[0], l[1], l[2], append(append(hv.L{}, hv.AsList(l[3])...), prevQ...)}
+		}
+		prevQ = qs
+		stages = append(stages, st)
+		if k == 0 {
+			class = c
+		} else {
+			class += "+" + c
+		}
+	}
+	pre := hv.L{}
+	if r.Chance(1, 5) {
+		for _, q := range prevQ {
+			if r.Bool() {
+				pre = append(pre, q)
+			}
+		}
+		class = "pre+" + class
+	}
+	return class, hv.L{pre, stages}
 }
 
 func main() {
-	hv.Main(&hv.Spec{Prop: "C10", Gen: gen, Impl: impl, Setup: setup, NQuick: 5000, NThorough: 200000})
+	hv.Main(&hv.Spec{Prop: "C10", Gen: gen, Impl: impl, Setup: setup, NQuick: 3000, NThorough: 100000})
 }
